@@ -15,20 +15,99 @@ from sa.report import where
 DT = 'torchtree.evolution.datatype'
 
 
-def partial_literal(cls_node: ast.ClassDef):
-    """(string literal tested by `string not in '<lit>'`, what is returned in that case) of partial()."""
+def class_states(cls_node: ast.ClassDef, ev):
+    """the state tuple handed to AbstractDataType.__init__ by this class's constructor"""
+    init = next((f for f in cls_node.body if isinstance(f, ast.FunctionDef) and f.name == '__init__'), None)
+    if init is None:
+        raise Unsupported(cls_node, '__init__ not found')
+    for c in ast.walk(init):
+        if isinstance(c, ast.Call) and isinstance(c.func, ast.Attribute) and c.func.attr == '__init__' and len(c.args) == 2:
+            return tuple(ev.expr(c.args[1]))
+    raise Unsupported(init, 'states passed to super().__init__ not found')
+
+
+class Pred:
+    """evaluates the guard of the missing-data branch of partial() for one symbol with use_ambiguities=False"""
+
+    def __init__(self, ev, cls_node, string_name, flag_name):
+        self.ev, self.cls_node, self.sn, self.fn = ev, cls_node, string_name, flag_name
+        self._states = None
+
+    def val(self, e, ch):
+        if isinstance(e, ast.Name):
+            if e.id == self.sn:
+                return ch
+            if e.id == self.fn:
+                return False
+        if isinstance(e, ast.Attribute) and isinstance(e.value, ast.Name) and e.value.id == 'self' and e.attr in ('states', '_states'):
+            if self._states is None:
+                self._states = class_states(self.cls_node, self.ev)
+            return self._states
+        if isinstance(e, ast.Attribute) and isinstance(e.value, ast.Name) and e.value.id == 'self' and e.attr in ('state_count', '_state_count'):
+            if self._states is None:
+                self._states = class_states(self.cls_node, self.ev)
+            return len(self._states)
+        if isinstance(e, ast.Call) and isinstance(e.func, ast.Attribute) and e.func.attr in ('upper', 'lower') and not e.args:
+            v = self.val(e.func.value, ch)
+            if not isinstance(v, str):
+                raise Unsupported(e, 'upper/lower on a non-string')
+            return getattr(v, e.func.attr)()
+        if isinstance(e, ast.Call) and isinstance(e.func, ast.Name) and e.func.id == 'ord' and len(e.args) == 1:
+            return ord(self.val(e.args[0], ch))
+        if isinstance(e, ast.Call) and isinstance(e.func, ast.Attribute) and e.func.attr == 'encoding' and len(e.args) == 1 \
+                and isinstance(e.func.value, ast.Name) and e.func.value.id == 'self':
+            enc = next((f for f in self.cls_node.body if isinstance(f, ast.FunctionDef) and f.name == 'encoding'), None)
+            ret = [n for n in ast.walk(enc) if isinstance(n, ast.Return)] if enc else []
+            if len(ret) != 1:
+                raise Unsupported(e, 'encoding() not a single return')
+            return Pred(self.ev, self.cls_node, enc.args.args[1].arg, '').val(ret[0].value, self.val(e.args[0], ch))
+        if isinstance(e, ast.BoolOp):
+            vals = [self.val(x, ch) for x in e.values]
+            return all(vals) if isinstance(e.op, ast.And) else any(vals)
+        if isinstance(e, ast.UnaryOp) and isinstance(e.op, ast.Not):
+            return not self.val(e.operand, ch)
+        if isinstance(e, ast.Compare) and len(e.ops) == 1:
+            a, b = self.val(e.left, ch), self.val(e.comparators[0], ch)
+            op = e.ops[0]
+            try:
+                if isinstance(op, ast.In):
+                    return a in b
+                if isinstance(op, ast.NotIn):
+                    return a not in b
+                if isinstance(op, ast.Eq):
+                    return a == b
+                if isinstance(op, ast.NotEq):
+                    return a != b
+                if isinstance(op, ast.Lt):
+                    return a < b
+                if isinstance(op, ast.LtE):
+                    return a <= b
+                if isinstance(op, ast.Gt):
+                    return a > b
+                if isinstance(op, ast.GtE):
+                    return a >= b
+            except TypeError as ex:
+                raise Unsupported(e, str(ex))
+        if isinstance(e, ast.Subscript):
+            obj = self.val(e.value, ch)
+            try:
+                return obj[self.val(e.slice, ch)]
+            except Exception as ex:
+                raise Unsupported(e, f"subscript: {ex}")
+        return self.ev.expr(e)
+
+
+def missing_branch(cls_node: ast.ClassDef, ev):
+    """(partial(), set of symbols sent to the missing-data branch when use_ambiguities is False, returned expression)"""
     fn = next((f for f in cls_node.body if isinstance(f, ast.FunctionDef) and f.name == 'partial'), None)
     if fn is None:
         raise Unsupported(cls_node, 'partial() not found')
-    for n in ast.walk(fn):
-        if isinstance(n, ast.If):
-            lit = None
-            for c in ast.walk(n.test):
-                if isinstance(c, ast.Compare) and isinstance(c.ops[0], ast.NotIn) and isinstance(c.comparators[0], ast.Constant) and isinstance(c.comparators[0].value, str):
-                    lit = c.comparators[0].value
-            uses_flag = any(isinstance(x, ast.Name) and x.id == 'use_ambiguities' for x in ast.walk(n.test))
-            if lit is not None and uses_flag and len(n.body) == 1 and isinstance(n.body[0], ast.Return):
-                return fn, lit, n.body[0].value
+    sn, flag = fn.args.args[1].arg, fn.args.args[2].arg
+    for n in fn.body:
+        if isinstance(n, ast.If) and any(isinstance(x, ast.Name) and x.id == flag for x in ast.walk(n.test)) and len(n.body) == 1 and isinstance(n.body[0], ast.Return):
+            pr = Pred(ev, cls_node, sn, flag)
+            missing = {chr(c) for c in range(128) if pr.val(n.test, chr(c))}
+            return fn, missing, n.body[0].value
     raise Unsupported(fn, 'missing-data branch of partial() not found')
 
 
@@ -52,7 +131,10 @@ def run(ctx, rep):
         try:
             env = fold_class(cls)
             st, amb = env[states_name], env[amb_name]
-            fn, lit, missing = partial_literal(cls)
+            from sa.consteval import ConstEval
+            ev = ConstEval(env, class_name=cname)
+            fn, missing_set, missing = missing_branch(cls, ev)
+            lit = {chr(c) for c in range(128)} - missing_set
         except (Unsupported, KeyError) as u:
             rep.undecided('C02.M', f"{cname}", W, str(u))
             continue
@@ -63,8 +145,6 @@ def run(ctx, rep):
                   f"and the tip-state representation disagree for these symbols")
         # missing branch returns all ones
         try:
-            from sa.consteval import ConstEval
-            ev = ConstEval(env, class_name=cname)
             mv = ev.expr(missing)
             ok = tuple(float(x) for x in mv) == (1.0,) * nstates
         except Unsupported:
@@ -111,7 +191,7 @@ def run(ctx, rep):
         mt = k.mat_tips or {}
         ok = mt.get('axis') == -1 and mt.get('first_is_tip_slice_of_mats') and mt.get('second_is_ones') and mt.get('one_column')
         gathers = [x for pos in ('first', 'second') for x in k.factors[pos] if x.kind == 'gather']
-        ok = ok and len(gathers) == 2 and all(g.gather_last and g.matrix == mt.get('name') for g in gathers)
+        ok = ok and len(gathers) == 2 and all(g.gather_last and not g.transposed and g.matrix == mt.get('name') for g in gathers)
         rep.check('C02.M', f"{name}::unknown-state-column", bool(ok), where(lm, f), {'mat_tips': mt, 'gathers': [g.as_dict() for g in gathers]},
                   f"{name}: the tip matrices must get exactly one extra column of ones on the last axis (index state_count = unknown) and tip states must index that axis")
     if n < 2:
